@@ -7,7 +7,9 @@ About `Mach.processRequest` (history bookkeeping of `R_::processRequest / proces
 substitution loop (requests and outcome of every round, Proofs/Rounds.lean); `approvedOf` concatenates the
 request lists of its approved rounds.
 
-  history        history_is_approved_rounds, history_empty_when_nothing_approved, history_empty_on_idle_step
+  history        history_is_approved_rounds, history_empty_when_nothing_approved, history_empty_on_idle_step,
+                 history_fits_capacity (at most `COMPO_COUNT × SUBSTITUTION_LIMIT` entries: the history of a step
+                 is never truncated by the step itself)
                  (after the fix of N2/F13 `compoRemains` takes part in `registry != backup`, so a round that only
                  changes restart-in-place bits counts as changed and is recorded: `Node.marksDiffer`)
   lastTransition last_transition_is_null_or_recorded, targets_index_some_round,
@@ -18,6 +20,15 @@ request lists of its approved rounds.
                    utility_unpinned_witness   sub-states chosen by utility / rank are never pinned
   replay         replay_reproduces_single_round_step_partial, replay_consults_no_guard,
                  replay_empty_history (N4: `replayEnter []` answers false), replayTransitions_empty
+                 The replica COPIES the replayed list into `previousTransitions` with the bounded
+                 `DynamicArrayT::emplace`: only the first `historyCap = COMPO_COUNT × SUBSTITUTION_LIMIT` entries
+                 are kept (`List.take`; Props/C11 `replay_beyond_capacity_dropped`), and only those are PINNED: the
+                 entries beyond the capacity are applied with `INVALID_SHORT` (`Mach.applyRequestNoPin`, /repo fix
+                 6770c20; same request marks — `Mach.applyRequests_root_plain` — so every theorem below stands as it
+                 was; Props/C11 `replay_pins_in_range`, `replay_last_transition_is_recorded`).  Every `replay_reproduces_…`
+                 theorem therefore concludes `previous = ts.take historyCap`; its `…_fits` corollary restores
+                 `previous = ts` when the list fits the replica's capacity — which the history of a step of an
+                 authority with the same (or a smaller) capacity always does (`history_fits_capacity`).
   replay, steps of several rounds (end of the file)
                  replay_reproduces_multi_round_step_partial   any number of approved / vetoed / dropped rounds, no
                                                               `schedule` request in a round that is not recorded: the
@@ -73,6 +84,15 @@ theorem history_empty_when_nothing_approved (m : Mach U) (hh : m.w.cfg.history =
 theorem history_empty_on_idle_step (m : Mach U) (hh : m.w.cfg.history = true) (he : m.w.requests.isEmpty = true) :
     m.processRequest.w.previous = [] := by
   rw [processRequest_previous m hh, if_pos he]
+
+/-- The history of a step fits `previousTransitions`: with the queue within `COMPO_COUNT` (C11 `bounded_always`)
+the approved rounds of one substitution loop carry at most `COMPO_COUNT × SUBSTITUTION_LIMIT` requests. -/
+theorem history_fits_capacity (m : Mach U) (hq : m.w.requests.length ≤ m.w.cfg.queueCap) :
+    (approvedOf m.stepLog).length ≤ m.w.cfg.historyCap :=
+  approvedOf_stepLog_length_le m hq
+
+example : ∃ m : Mach Nat, m.w.requests.length ≤ m.w.cfg.queueCap ∧ approvedOf m.stepLog ≠ [] :=
+  ⟨(Witness.start Witness.shapeC).request .change 2 none, by decide +kernel, by decide +kernel⟩
 
 /-! ## `lastTransitionTo` -/
 
@@ -181,7 +201,8 @@ theorem utility_unpinned_witness :
 
 /-- **Replay reproduces a single-round step (partial).** Authority `a` processes its queue `ts` in one approved
 round; a replica `r` holding the same tree replays `ts`: it answers `true` and ends with exactly the
-authority's tree (active configuration *and* resumable marks) and with `previousTransitions = ts`.
+authority's tree (active configuration *and* resumable marks) and with `previousTransitions` = the first
+`historyCap` entries of `ts` (all of `ts` when it fits: `…_fits`).
 Hypotheses: `Plain` machine (the apply phase asks no callback and draws no random number, so both sides
 resolve alike without further assumptions), destinations in range, kinds `change / restart / resume /
 schedule`.  For steps with several rounds the statement is false already because vetoed rounds'
@@ -191,14 +212,27 @@ theorem replay_reproduces_single_round_step_partial (a r : Mach U) (ts : List Tr
     (hcfg : r.w.cfg.stateCount = a.w.cfg.stateCount) (hplain : a.root.Plain = true)
     (hk : ∀ t ∈ ts, t.kind.plain = true) (hd : ∀ t ∈ ts, t.dest < a.w.cfg.stateCount) :
     (r.replayTransitions ts).2 = true ∧ (r.replayTransitions ts).1.root = a.processRequest.root ∧
-    (r.replayTransitions ts).1.w.previous = ts :=
+    (r.replayTransitions ts).1.w.previous = ts.take r.w.cfg.historyCap :=
   replay_reproduces_single_round_step a r ts hlog hroot hcfg hplain hk hd
+
+/-- … and when the replayed list fits the replica's `previousTransitions` it is stored whole. -/
+theorem replay_reproduces_single_round_step_partial_fits (a r : Mach U) (ts : List Transition)
+    (hlog : a.stepLog = [(ts, .approved)]) (hroot : r.root = a.root)
+    (hcfg : r.w.cfg.stateCount = a.w.cfg.stateCount) (hplain : a.root.Plain = true)
+    (hk : ∀ t ∈ ts, t.kind.plain = true) (hd : ∀ t ∈ ts, t.dest < a.w.cfg.stateCount)
+    (hfit : ts.length ≤ r.w.cfg.historyCap) :
+    (r.replayTransitions ts).2 = true ∧ (r.replayTransitions ts).1.root = a.processRequest.root ∧
+    (r.replayTransitions ts).1.w.previous = ts := by
+  obtain ⟨h1, h2, h3⟩ := replay_reproduces_single_round_step_partial a r ts hlog hroot hcfg hplain hk hd
+  exact ⟨h1, h2, h3.trans (List.take_of_length_le hfit)⟩
 
 /-- the hypotheses are satisfiable: authority `W.one`, replica a second instance in the same state -/
 example : W.one.stepLog = [([⟨none, 2, .change, none⟩], .approved)] ∧
     (Witness.fresh (Witness.start Witness.shapeC) (Witness.idle 20)).root = W.one.root ∧ W.one.root.Plain = true ∧
-    ((Witness.fresh (Witness.start Witness.shapeC) (Witness.idle 20)).replayTransitions [⟨none, 2, .change, none⟩]).1.root.isActive 2 = true :=
-  ⟨by decide +kernel, Node.eq_of_beqW _ _ (by decide +kernel), by decide +kernel, by decide +kernel⟩
+    ((Witness.fresh (Witness.start Witness.shapeC) (Witness.idle 20)).replayTransitions [⟨none, 2, .change, none⟩]).1.root.isActive 2 = true ∧
+    [(⟨none, 2, .change, none⟩ : Transition)].length ≤
+      (Witness.fresh (Witness.start Witness.shapeC) (Witness.idle 20)).w.cfg.historyCap :=
+  ⟨by decide +kernel, Node.eq_of_beqW _ _ (by decide +kernel), by decide +kernel, by decide +kernel, by decide +kernel⟩
 
 /-- Replay consults no guard: the events of `replayTransitions` are forward-pass callbacks
 (`select / rank / utility`) and lifecycle callbacks only. -/
@@ -222,8 +256,9 @@ Theorems that constitute property C09 (for `Props/INDEX.json`):
     last_transition_is_null_or_recorded, targets_index_some_round
     single_request_last_transition_partial, entered_states_are_touched
     foreign_index_witness, later_round_clears_witness, utility_unpinned_witness      (full statement false)
-    replay_reproduces_single_round_step_partial, replay_consults_no_guard
-    replay_empty_history (N4), replayTransitions_empty
+    history_fits_capacity
+    replay_reproduces_single_round_step_partial, replay_reproduces_single_round_step_partial_fits,
+    replay_consults_no_guard, replay_empty_history (N4), replayTransitions_empty
 -/
 
 end Hfsm.Props.C09
@@ -278,20 +313,39 @@ theorem single_request_last_transition_reachable (hq : QuietOf shape cfg m) (he 
 
 /-- **Replay between two reachable instances of the same machine.**  The authority `a` processes a call in one
 approved round with requests `ts`; a replica `r` of the same `shape` (any configuration, any history) holding the
-same registry replays `ts`: it answers `true` and ends with the authority's registry.  (`hcfg` of the partial
-theorem is discharged: both have `shape.stateCount` states.) -/
+same registry replays `ts`: it answers `true` and ends with the authority's registry, keeping the first
+`cfgR.historyCap` entries of `ts` as its `previousTransitions`.  (`hcfg` of the partial theorem is discharged: both
+have `shape.stateCount` states.) -/
 theorem replay_reproduces_single_round_step_reachable {cfgA cfgR : Config} {a a' r : Mach U} {ts : List Transition}
     (ha : ReachableOf shape cfgA a) (hr : ReachableOf shape cfgR r) (hp : a.atProcess o = some a')
     (hlog : a'.stepLog = [(ts, .approved)]) (hroot : r.root = a.root) (hplain : a.root.Plain = true)
     (hk : ∀ t ∈ ts, t.kind.plain = true) (hd : ∀ t ∈ ts, t.dest < shape.stateCount) :
     (r.replayTransitions ts).2 = true ∧ (r.replayTransitions ts).1.root = (Api.step a o).root ∧
-    (r.replayTransitions ts).1.w.previous = ts := by
+    (r.replayTransitions ts).1.w.previous = ts.take cfgR.historyCap := by
   have hc : a'.w.cfg = a.w.cfg := Mach.atProcess_cfg hp
   have hra : a'.root = a.root := Mach.atProcess_root hp
-  rw [Mach.atProcess_step hp]
+  rw [Mach.atProcess_step hp, ← hr.cfg_historyCap]
   exact replay_reproduces_single_round_step_partial a' r ts hlog (hroot.trans hra.symm)
     (by rw [hc, ha.stateCount, hr.stateCount]) (by rw [hra]; exact hplain) hk
     (by rw [hc, ha.stateCount]; exact hd)
+
+/-- … and a replica whose history capacity is not smaller than the authority's stores `ts` whole: the requests of
+one call of a reachable authority always fit its own capacity (`history_fits_capacity`, C11). -/
+theorem replay_reproduces_single_round_step_reachable_fits {cfgA cfgR : Config} {a a' r : Mach U} {ts : List Transition}
+    (ha : ReachableOf shape cfgA a) (hr : ReachableOf shape cfgR r) (hp : a.atProcess o = some a')
+    (hlog : a'.stepLog = [(ts, .approved)]) (hroot : r.root = a.root) (hplain : a.root.Plain = true)
+    (hk : ∀ t ∈ ts, t.kind.plain = true) (hd : ∀ t ∈ ts, t.dest < shape.stateCount)
+    (hcap : cfgA.historyCap ≤ cfgR.historyCap) :
+    (r.replayTransitions ts).2 = true ∧ (r.replayTransitions ts).1.root = (Api.step a o).root ∧
+    (r.replayTransitions ts).1.w.previous = ts := by
+  obtain ⟨h1, h2, h3⟩ := replay_reproduces_single_round_step_reachable ha hr hp hlog hroot hplain hk hd
+  refine ⟨h1, h2, h3.trans (List.take_of_length_le (Nat.le_trans ?_ hcap))⟩
+  have hfit := history_fits_capacity a' (Mach.atProcess_bounded hp ha.bounded).1
+  rw [hlog, Mach.atProcess_cfg hp, ha.cfg_historyCap] at hfit
+  simpa [approvedOf] using hfit
+
+/-- `hcap` holds e.g. between two instances of the same machine type -/
+example : Demo.cfg.historyCap ≤ Demo.cfg.historyCap ∧ Demo.cfg.historyCap = 4 := ⟨Nat.le_refl _, by decide⟩
 
 /-- a concrete non-trivial reachable instance exists; it is quiet, and its last call recorded a history -/
 example : Reachable (Api.run Demo.mach Demo.prog) := Demo.reachable.reachable
@@ -329,7 +383,8 @@ variable {U : Type} [UtilArith U]
 runs its substitution loop, log `a.stepLog`; something was approved, so `previousTransitions = approvedOf
 a.stepLog` (`history_is_approved_rounds`).  A replica `r` holding the same registry replays that list: it answers
 `true` and ends with exactly the authority's registry — the same ACTIVE configuration and the same RESUMABLE
-sub-states — and with the same `previousTransitions`.  Hypotheses: `Plain` machine (no `select` / utility /
+sub-states — and with the first `historyCap` entries of it as `previousTransitions` (all of it when the replica's
+capacity is not smaller than the authority's: `…_fits`).  Hypotheses: `Plain` machine (no `select` / utility /
 random region: the apply phase asks nothing); every record of the log is `RoundOK`: the requests of an approved
 round have kinds `change / restart / resume / schedule` and name states of the machine, a round that is NOT
 recorded (vetoed, or dropped because it left the marks unchanged) carries no `schedule` request. -/
@@ -338,8 +393,22 @@ theorem replay_reproduces_multi_round_step_partial (a r : Mach U) (hroot : r.roo
     (hlog : ∀ rd ∈ a.stepLog, RoundOK a.w.cfg.stateCount rd) (happ : approvedOf a.stepLog ≠ []) :
     (r.replayTransitions (approvedOf a.stepLog)).2 = true ∧
     (r.replayTransitions (approvedOf a.stepLog)).1.root = a.processRequest.root ∧
-    (r.replayTransitions (approvedOf a.stepLog)).1.w.previous = approvedOf a.stepLog :=
+    (r.replayTransitions (approvedOf a.stepLog)).1.w.previous =
+      (approvedOf a.stepLog).take r.w.cfg.historyCap :=
   replay_reproduces_multi_round_step a r hroot hcfg hplain hnm hlog happ
+
+/-- … and the replica ends with the authority's `previousTransitions` when its capacity is not smaller than the
+authority's: the history of a step of an authority whose queue is within `COMPO_COUNT` fits that capacity
+(`history_fits_capacity`). -/
+theorem replay_reproduces_multi_round_step_partial_fits (a r : Mach U) (hroot : r.root = a.root)
+    (hcfg : r.w.cfg.stateCount = a.w.cfg.stateCount) (hplain : a.root.Plain = true) (hnm : a.root.NoMarks)
+    (hlog : ∀ rd ∈ a.stepLog, RoundOK a.w.cfg.stateCount rd) (happ : approvedOf a.stepLog ≠ [])
+    (hq : a.w.requests.length ≤ a.w.cfg.queueCap) (hcap : a.w.cfg.historyCap ≤ r.w.cfg.historyCap) :
+    (r.replayTransitions (approvedOf a.stepLog)).2 = true ∧
+    (r.replayTransitions (approvedOf a.stepLog)).1.root = a.processRequest.root ∧
+    (r.replayTransitions (approvedOf a.stepLog)).1.w.previous = approvedOf a.stepLog := by
+  obtain ⟨h1, h2, h3⟩ := replay_reproduces_multi_round_step_partial a r hroot hcfg hplain hnm hlog happ
+  exact ⟨h1, h2, h3.trans (List.take_of_length_le (Nat.le_trans (history_fits_capacity a hq) hcap))⟩
 
 /-- **Substituted rounds.**  All rounds of the step were approved (round `k+1` consists of the requests the guards
 of round `k` issued): the replica that replays the concatenated history has, state by state, the authority's
@@ -399,6 +468,20 @@ example :
   obtain ⟨h1, h2, _⟩ := replay_reproduces_multi_round_step_partial W.subst r hroot (by decide +kernel)
     (by decide +kernel) (Node.noMarks_of_hasMark _ (by decide +kernel)) (by decide +kernel) (by decide +kernel)
   exact ⟨by decide +kernel, h1, h2, by decide +kernel⟩
+
+/-- … and, the capacities being equal (`4 × 4`) and the queue within bounds, the replica of `W.subst` ends with the
+whole history `[→2, 2→3]` as its `previousTransitions` -/
+example :
+    let r : Mach Nat := Witness.fresh (Witness.start Witness.shapeC) (Witness.idle 20)
+    W.subst.w.cfg.historyCap = 16 ∧ r.w.cfg.historyCap = 16 ∧
+    (r.replayTransitions (approvedOf W.subst.stepLog)).1.w.previous =
+      [⟨none, 2, .change, none⟩, ⟨some 2, 3, .change, none⟩] := by
+  intro r
+  have hroot : r.root = W.subst.root := Node.eq_of_beqW _ _ (by decide +kernel)
+  obtain ⟨_, _, h3⟩ := replay_reproduces_multi_round_step_partial_fits W.subst r hroot (by decide +kernel)
+    (by decide +kernel) (Node.noMarks_of_hasMark _ (by decide +kernel)) (by decide +kernel) (by decide +kernel)
+    (by decide +kernel) (by decide +kernel)
+  exact ⟨by decide +kernel, by decide +kernel, h3.trans (by decide +kernel)⟩
 
 /-- … and of `W.substVeto` (round 1 approved, round 2 vetoed, no `schedule`): the vetoed round leaves no trace -/
 example :
@@ -460,20 +543,38 @@ theorem replay_reproduces_multi_round_step_reachable {cfgA cfgR : Config} {a a' 
     (hlog : ∀ rd ∈ a'.stepLog, RoundOK shape.stateCount rd) (happ : approvedOf a'.stepLog ≠ []) :
     (r.replayTransitions (approvedOf a'.stepLog)).2 = true ∧
     (r.replayTransitions (approvedOf a'.stepLog)).1.root = (Api.step a o).root ∧
-    (r.replayTransitions (approvedOf a'.stepLog)).1.w.previous = approvedOf a'.stepLog := by
+    (r.replayTransitions (approvedOf a'.stepLog)).1.w.previous = (approvedOf a'.stepLog).take cfgR.historyCap := by
   have ha := hq.reachable
   have hc : a'.w.cfg = a.w.cfg := Mach.atProcess_cfg hp
   have hra : a'.root = a.root := Mach.atProcess_root hp
-  rw [Mach.atProcess_step hp]
+  rw [Mach.atProcess_step hp, ← hr.cfg_historyCap]
   exact replay_reproduces_multi_round_step_partial a' r (hroot.trans hra.symm)
     (by rw [hc, ha.stateCount, hr.stateCount]) (by rw [hra]; exact hplain) (by rw [hra]; exact hq.noMarks he)
     (by rw [hc, ha.stateCount]; exact hlog) happ
 
+/-- … and a replica whose history capacity is not smaller than the authority's (e.g. a second instance of the same
+machine type) ends with the authority's `previousTransitions`: nothing is dropped. -/
+theorem replay_reproduces_multi_round_step_reachable_fits {cfgA cfgR : Config} {a a' r : Mach U}
+    (hq : QuietOf shape cfgA a) (he : a.w.err = none) (hr : ReachableOf shape cfgR r) (hp : a.atProcess o = some a')
+    (hroot : r.root = a.root) (hplain : a.root.Plain = true)
+    (hlog : ∀ rd ∈ a'.stepLog, RoundOK shape.stateCount rd) (happ : approvedOf a'.stepLog ≠ [])
+    (hcap : cfgA.historyCap ≤ cfgR.historyCap) :
+    (r.replayTransitions (approvedOf a'.stepLog)).2 = true ∧
+    (r.replayTransitions (approvedOf a'.stepLog)).1.root = (Api.step a o).root ∧
+    (r.replayTransitions (approvedOf a'.stepLog)).1.w.previous = approvedOf a'.stepLog := by
+  obtain ⟨h1, h2, h3⟩ := replay_reproduces_multi_round_step_reachable hq he hr hp hroot hplain hlog happ
+  refine ⟨h1, h2, h3.trans (List.take_of_length_le (Nat.le_trans ?_ hcap))⟩
+  have hfit := history_fits_capacity a' (Mach.atProcess_bounded hp hq.reachable.bounded).1
+  rw [Mach.atProcess_cfg hp, hq.reachable.cfg_historyCap] at hfit
+  exact hfit
+
 /-
 Theorems added to property C09 (for `Props/INDEX.json`):
 
-    replay_reproduces_multi_round_step_partial, replay_reproduces_multi_round_active,
-    replay_reproduces_multi_round_step_reachable
+    replay_reproduces_multi_round_step_partial, replay_reproduces_multi_round_step_partial_fits,
+    replay_reproduces_multi_round_active,
+    replay_reproduces_multi_round_step_reachable, replay_reproduces_multi_round_step_reachable_fits
+    (and, in the single-round end-to-end section: replay_reproduces_single_round_step_reachable_fits)
     multi_round_replay_witness, multi_round_replay_full_statement_false                  (full statement false)
 -/
 
